@@ -9,7 +9,6 @@ package otp
 //@   loop 1 invariant 0 <= i && (n >= 0 ==> i <= n) && (i <= 19 ==> result == pow10(i))
 //@   loop 1 decreases n - i
 //@   ensures 0 <= n && n <= 19 ==> r == pow10(n)
-//@   ensures n <= 0 ==> r == 1
 
 // the binding only ever passes the code lengths DigitsFromStr can return (6, 8, 9, 10)
 //@ func otp.DeriveRFC4226Wasm(secret, counter, digits, algo) (s, err)
